@@ -248,6 +248,36 @@ def run(tier):
     if tier == 'quick':
         cdp = [h for h in cdp if h[-1][0] != h[0][0] or h[-1][0] == 'sv' or h[-1][1:3] != [c for c in h if c[0] != 'cd'][0][1:3]][::2]
     go('ordered pairs with a change of working directory in between', work, [('pair-chdir', cdp[i::64]) for i in range(64)])
+    # ---- files that come and go between two calls: a temporary copy of a valid sample is validated and deleted, then a copy of an invalid sample
+    #      is created under another name (it may well get the same inode) and validated: each answer is that of the file's content
+    import tempfile, shutil
+    acc = Acc()
+    G = setup()
+    good, bad = os.path.join(common.REPO, 'sample-jsons', 'athlete.json'), os.path.join(common.REPO, 'sample-jsons', 'athlete_invalid.json')
+    if os.path.exists(good) and os.path.exists(bad):
+        td = tempfile.mkdtemp(prefix='c19files.')
+        try:
+            for rnd in range(8):
+                reset()
+                hist_ = []
+                for k, (src, want) in enumerate([(good, ('ret', True)), (bad, ('ret', False)), (good, ('ret', True)), (bad, ('ret', False))]):
+                    f = os.path.join(td, 'doc_%d_%d.json' % (rnd, k))
+                    shutil.copyfile(src, f)
+                    call = ('va', f, 'json/athlete.json', False)
+                    got = hist.execute(G['U'], G['js'], call)
+                    hist_.append([os.path.basename(src), list(got)])
+                    acc.n += 1
+                    if got != want:
+                        acc.bad('va:after-other-calls:temporary-file-%s-instead-of-%s' % ('-'.join(map(str, got)), '-'.join(map(str, want))),
+                                dict(history=hist_, label='temporary files created and deleted between calls'),
+                                'a temporary copy of %s validated %r; earlier calls on files since deleted: %r' % (os.path.basename(src), got, hist_[:-1]))
+                    else:
+                        acc.nontrivial += 1
+                    os.remove(f)
+        finally:
+            shutil.rmtree(td, ignore_errors=True)
+            reset()
+    merge(rep, [acc.pack()], part='temporary documents created, validated and deleted in turn (8 rounds of valid / invalid / valid / invalid)')
     # ---- all triples over the reduced alphabet (state kept outside the two result caches shows only in such mixed histories)
     triples = [list(t) for t in itertools.product(R, repeat=3)]
     go('all triples over the reduced alphabet of %d calls' % len(R), work, [('triple', triples[i::64]) for i in range(64)])
